@@ -108,6 +108,10 @@ def quantile_sample(family, n):
         a = stats.norm.ppf((np.arange(n1) + 0.5) / n1)
         b = 4.5 + 1.5 * stats.norm.ppf((np.arange(n2) + 0.5) / n2)
         return np.sort(np.concatenate([a, b]))
+    if family == "outliers":
+        # a standard-normal bulk and two isolated far points: range / bandwidth of many thousands
+        m = n - 2
+        return np.sort(np.concatenate([stats.norm.ppf((np.arange(m) + 0.5) / m), [-2500.0, 3000.0]]))
     if family == "ties":
         # normal quantiles rounded to one decimal: many exact ties
         return np.round(stats.norm.ppf(q), 1)
